@@ -254,6 +254,17 @@ fn main() {
             let x = *pool.choose(&mut rng).unwrap();
             ops.push(if rng.gen_bool(0.5) { Op::Add(x) } else { Op::Rem(x) });
         }
+        // about 1 case in 16 drives LARGE batches through queue_deltas: a small cluster 1..=n
+        // (so that one owner receives most of a batch), no membership changes
+        let bigb = rng.gen_bool(1.0 / 16.0);
+        let (vn, rf, init, ops) = if bigb {
+            let n = rng.gen_range(2..=4u64);
+            let mut init: Vec<u64> = (1..=n).collect();
+            init.shuffle(&mut rng);
+            (rng.gen_range(1..=8u32), rng.gen_range(1..=3u64), init, Vec::<Op>::new())
+        } else {
+            (vn, rf, init, ops)
+        };
         let mut keys: Vec<(String, u64)> = (0..nkeys).map(|_| (gen_key(&mut rng), rng.gen_range(0..=7))).collect();
         // in part of the cases the per-key rf is the one AdaptiveReplicationManager chooses
         // (base_rf, or hot_key_rf for keys it saw accessed often)
@@ -557,6 +568,126 @@ fn main() {
             rshow.push(json!({"router": format!("{:?}", m), "peers": peers, "selective": selective, "deltas": deltas, "table": ctable, "batches": batches, "queue": format!("{:?}", queue)}));
         }
 
+        // ---------------- large batches through queue_deltas, observed at drain_outbound
+        let mut bterms: Vec<String> = Vec::new();
+        if bigb {
+            let n = fin_members.len() as u64;
+            let me = rng.gen_range(1..=n);
+            let m = if rng.gen_bool(0.5) {
+                let mut peers: Vec<u64> = (1..=n).filter(|x| *x != me).collect();
+                peers.shuffle(&mut rng);
+                RMake::New { me, peers, selective: true }
+            } else {
+                RMake::Cfg { rid: me, npeers: n - 1, selective: true, partitioned: true, enabled: true }
+            };
+            const SIZES: [u64; 9] = [1, 2, 255, 256, 257, 511, 512, 513, 1000];
+            let ncalls = rng.gen_range(1..=2);
+            let sizes: Vec<u64> = (0..ncalls)
+                .map(|_| if rng.gen_bool(0.12) { rng.gen_range(2000..=4000) } else { *SIZES.choose(&mut rng).unwrap() })
+                .collect();
+            let few = rng.gen_bool(0.5);
+            let bkeys: Vec<String> = if few {
+                (0..rng.gen_range(1..=3)).map(|_| gen_key(&mut rng)).collect()
+            } else {
+                let k = (*sizes.iter().max().unwrap()).min(300);
+                (0..k).map(|j| format!("big:{}:{}", i, j)).collect()
+            };
+            let mut origins: Vec<u64> = vec![me];
+            for _ in 0..rng.gen_range(0..=2) {
+                origins.push(rng.gen_range(1..=n + 2));
+            }
+            out.count(if few { "big batch:few keys" } else { "big batch:many keys" });
+            let (router, cfg) = build_router(&shared, &m);
+            let mut gs = GossipState::with_router(cfg, router);
+            let mut base = 0u64;
+            let mut sent: Vec<Vec<(String, u64)>> = Vec::new(); // per call: (key, tag)
+            for sz in &sizes {
+                out.count(&format!("big batch size:{}", if *sz >= 2000 { "2000-4000".to_string() } else { sz.to_string() }));
+                let batch: Vec<ReplicationDelta> = (0..*sz)
+                    .map(|j| mk_delta(&bkeys[(j % bkeys.len() as u64) as usize], base + j, origins[(j % origins.len() as u64) as usize]))
+                    .collect();
+                sent.push((0..*sz).map(|j| (bkeys[(j % bkeys.len() as u64) as usize].clone(), base + j)).collect());
+                base += sz;
+                gs.advance_epoch();
+                gs.queue_deltas(batch);
+            }
+            let drained = gs.drain_outbound();
+            // the property, on what actually leaves the node: per call, every owner other
+            // than the sender is handed every update exactly as often as it was queued
+            // (multiset per target), nobody else is handed anything
+            let mut owners_of: HashMap<String, Vec<u64>> = HashMap::new();
+            for k in &bkeys {
+                owners_of.insert(k.clone(), ids(&ring.get_replicas(k)).into_iter().filter(|x| *x != me).collect());
+            }
+            let mut got: BTreeMap<(u64, u64), Vec<u64>> = BTreeMap::new(); // (epoch, target) -> tags
+            for rm in &drained {
+                out.impl_checks += 1;
+                match &rm.message {
+                    GossipMessage::TargetedDelta { source_replica, target_replica, deltas, epoch } => {
+                        if rm.target != Some(*target_replica) || source_replica.0 != me {
+                            out.violation(i, "queue_deltas: targeted message with inconsistent target / source", json!({"message": format!("{:?}", canon_msg(rm.target, &rm.message))}));
+                        }
+                        got.entry((*epoch, target_replica.0)).or_default().extend(deltas.iter().map(|d| d.value.timestamp.time));
+                    }
+                    _ => out.violation(i, "queue_deltas (selective): a non-targeted message was queued", json!({"router": format!("{:?}", m)})),
+                }
+            }
+            let mut want: BTreeMap<(u64, u64), Vec<u64>> = BTreeMap::new();
+            for (ci, call) in sent.iter().enumerate() {
+                for (k, t) in call {
+                    for o in &owners_of[k] {
+                        want.entry((ci as u64 + 1, *o)).or_default().push(*t);
+                    }
+                }
+            }
+            let all_keys: BTreeSet<(u64, u64)> = got.keys().chain(want.keys()).cloned().collect();
+            for key in all_keys {
+                out.impl_checks += 1;
+                let mut g = got.get(&key).cloned().unwrap_or_default();
+                let mut w = want.get(&key).cloned().unwrap_or_default();
+                g.sort();
+                w.sort();
+                if g != w {
+                    let missing: Vec<u64> = w.iter().filter(|t| g.binary_search(t).is_err()).take(5).cloned().collect();
+                    let extra: Vec<u64> = g.iter().filter(|t| w.binary_search(t).is_err()).take(5).cloned().collect();
+                    out.violation(i, &format!("queue_deltas: in call {} (batch of {} updates) node {} was handed {} updates, it owns {} of them", key.0, sizes[(key.0 - 1) as usize], key.1, g.len(), w.len()),
+                        json!({"router": format!("{:?}", m), "members": fin_members, "rf": rf, "vnodes": vn, "batch_sizes": sizes, "distinct_keys": bkeys.len(),
+                               "first_missing_tags": missing, "first_unexpected_tags": extra}));
+                }
+            }
+            if !gs.outbound_queue.is_empty() {
+                out.violation(i, "drain_outbound left messages behind", json!({}));
+            }
+            // digest per message for the model
+            let mut dq: Vec<(Option<u64>, u64, u64, u64, u64, u64, u64, u64)> = drained
+                .iter()
+                .map(|rm| {
+                    let c = canon_msg(rm.target, &rm.message);
+                    let cnt = c.4.len() as u64;
+                    let sm: u64 = c.4.iter().map(|x| x.0).sum();
+                    let ws: u64 = c.4.iter().enumerate().map(|(p, x)| (p as u64 + 1) * x.0).sum();
+                    (c.0, c.1, c.2, c.3, c.5, cnt, sm, ws)
+                })
+                .collect();
+            dq.sort_by_key(|q| (q.4, q.0.unwrap_or(0)));
+            let mterm = match &m {
+                RMake::New { me, peers, selective } => format!("(RNew {} {} {})", me, nl(peers), cbool(*selective)),
+                RMake::Cfg { rid, npeers, selective, partitioned, enabled } => {
+                    format!("(RCfg {} {} {} {} {})", rid, npeers, cbool(*selective), cbool(*partitioned), cbool(*enabled))
+                }
+            };
+            bterms.push(format!(
+                "(BG {} {} {} {} {})",
+                mterm,
+                clist(bkeys.iter(), |k| chex(k.as_bytes())),
+                nl(&origins),
+                nl(&sizes),
+                clist(dq.iter(), |q| format!("({},({},({},({},({},({},({},{})))))))", copt(&q.0, |x| x.to_string()), q.1, q.2, q.3, q.4, q.5, q.6, q.7))
+            ));
+            rshow.push(json!({"big_batches": {"router": format!("{:?}", m), "sizes": sizes, "distinct_keys": bkeys.len(), "origins": origins,
+                              "messages (target, kind, src, tgt, epoch, deltas, sum, wsum)": format!("{:?}", dq)}}));
+        }
+
         // ---------------- the case for the model
         let mut universe: BTreeSet<u64> = init.iter().cloned().collect();
         for o in &ops {
@@ -567,7 +698,7 @@ fn main() {
             }
         }
         let term = format!(
-            "(K {} {} {} {} {} {} {} {})",
+            "(K {} {} {} {} {} {} {} {} {})",
             vn,
             rf,
             nl(&init),
@@ -578,7 +709,8 @@ fn main() {
             clist(keys.iter(), |(k, r)| format!("({},{})", chex(k.as_bytes()), r)),
             clist(stages.iter(), stage_term),
             nl(&universe.iter().cloned().collect::<Vec<_>>()),
-            clist(rterms.iter(), |s| s.clone())
+            clist(rterms.iter(), |s| s.clone()),
+            clist(bterms.iter(), |s| s.clone())
         );
         let canon = format!("{}|{}|{:?}|{:?}|{:?}", vn, rf, init, ops, keys);
         let nontrivial = fin_members.len() >= 2 && vn >= 1 && !keys.is_empty();
